@@ -126,7 +126,11 @@ func GenTlvNumberDecode(code string) (string, error) {
 
 func GenNaturalNumberDecode(code string) (string, error) {
 	const Temp = `{{.}} = uint64(0)
-	{
+	if l != 1 && l != 2 && l != 4 && l != 8 {
+		// A NonNegativeInteger has 1, 2, 4 or 8 octets (as enc.ParseNat requires).
+		// More than 8 octets would silently wrap around.
+		err = enc.ErrFormat{Msg: "natural number length is not 1, 2, 4 or 8"}
+	} else {
 		for i := 0; i < int(l); i++ {
 			x := byte(0)
 			x, err = reader.ReadByte()
